@@ -302,6 +302,10 @@ def k_read(pre: int, q: str, post: int) -> str:
     finally:
         pp.unquote = saved
     why = ''
+    if len(UNQ) == 0 and got is not None:
+        # a value came back although the un-quoter this harness records was never called: the decoding happens
+        # somewhere else now; this kernel cannot judge it (the W obligations decide the end-to-end behaviour)
+        return rt.not_applicable('unquote-seam-not-used', 'parse_path(%r) returned %r without calling parse_path.unquote' % (content, got))
     if len(UNQ) != 1:
         why = 'calls'
     elif not (UNQ[0] == q):
